@@ -8,7 +8,8 @@ from .. import core, eqv, values
 ID = 'C10'
 LEVEL = 'exploration'
 RULE = ('case = (container tree over list/tuple/set/frozenset/dict with lengths 0..6, optionally reached through '
-        'pretty_call objects with one or several positional/keyword arguments, N in {1..maxlen+1, None, 10^6, '
+        'pretty_call objects with one or several positional/keyword arguments or held by standard-library containers (deque, '
+        'OrderedDict, defaultdict, Counter, ChainMap, mappingproxy, namedtuple, SimpleNamespace; N >= 2 there), N in {1..maxlen+1, None, 10^6, '
         'default}, width, indent). Exhaustive: shapes built from lengths {0,1,2,3} nested to depth 2 over all five '
         'container kinds x every N in 1..4 plus None x 3 widths; long flat containers of 999/1000/1001/1200 elements at '
         'the default limit; random: Hypothesis trees. Oracle: eval(output) type-strictly equals the reference '
@@ -81,6 +82,12 @@ def fixed_cases():
             yield {'v': [kind, big_set[1]], 'n': n, 'width': 40, 'indent': 4, 'sort': True}
         yield {'v': ['list', [big_set, ['dict', [[['int', 3], big_set], [['int', 1], ['int', 0]], [['int', 2], ['int', 0]]]]]], 'n': n, 'width': 40, 'indent': 4, 'sort': True}
     inner = ['list', [['int', 1], ['int', 2], ['int', 3], ['int', 4]]]
+    for n in (2, 3, None):
+        yield {'v': ['std', 'deque', [['int', 10], ['int', 20], ['int', 30], ['int', 40], inner], 9], 'n': n, 'width': 40, 'indent': 4, 'std': True}
+        yield {'v': ['std', 'odict', [[['int', i], inner] for i in range(4)]], 'n': n, 'width': 40, 'indent': 4, 'std': True}
+        yield {'v': ['std', 'ddict', 'list', [[['int', i], inner] for i in range(4)]], 'n': n, 'width': 40, 'indent': 4, 'std': True}
+        yield {'v': ['std', 'chainmap', [[[['int', i], inner] for i in range(4)], [[['str', 'k'], ['int', 0]]]]], 'n': n, 'width': 40, 'indent': 4, 'std': True}
+        yield {'v': ['std', 'ntuple', 'Point', [inner, ['tuple', [['int', 1], ['int', 2], ['int', 3], ['int', 4]]]]], 'n': n, 'width': 40, 'indent': 4, 'std': True}
     for n in (1, 3, None):
         yield {'v': ['call', 'box', [inner, ['dict', [[['int', 1], inner], [['int', 2], ['int', 0]]]]], [['kw', ['tuple', [inner, ['int', 5], ['int', 6]]]]]],
                'n': n, 'width': 40, 'indent': 4}
@@ -112,16 +119,49 @@ def strategy(tier):
     plain = st.recursive(leaf, ext, max_leaves=30).filter(lambda r: r[0] in ('list', 'tuple', 'set', 'fset', 'dict'))
     with_calls = st.recursive(leaf, ext_calls, max_leaves=20).filter(lambda r: r[0] in ('list', 'tuple', 'dict', 'call'))
     tree = st.one_of(plain, plain, with_calls)
-    return st.fixed_dictionaries({
+    # standard-library containers holding built-in containers (N >= 2: the (key, value) items of an OrderedDict are
+    # 2-tuples and must stay whole)
+    from .. import stdvals
+    small = st.recursive(leaf, ext, max_leaves=8)
+    parts = stdvals.std_strategy(S, payload=small, hashable=hashable)
+    std_tree = st.one_of(*[parts[k] for k in ('odict', 'ddict', 'deque', 'counter', 'chainmap', 'mproxy', 'ns', 'ntuple')])
+    std_case = st.fixed_dictionaries({
+        'v': st.one_of(std_tree, st.lists(std_tree, min_size=1, max_size=3).map(lambda xs: ['list', xs])),
+        'n': st.one_of(st.integers(2, 5), st.none()), 'width': st.sampled_from([20, 79]), 'indent': st.sampled_from([2, 4]),
+        'sort': st.booleans(), 'std': st.just(True)})
+    return st.one_of(std_case, st.fixed_dictionaries({
         'v': tree,
         'n': st.one_of(st.integers(1, 7), st.integers(1, 3), st.none(), st.just(10 ** 6)),
         'width': st.one_of(st.integers(1, 79), st.sampled_from([1, 10, 79])),
         'indent': st.sampled_from([1, 2, 4, 8]), 'sort': st.sampled_from([False, False, True]),
-    })
+    }), st.fixed_dictionaries({
+        'v': tree,
+        'n': st.one_of(st.integers(1, 7), st.integers(1, 3), st.none(), st.just(10 ** 6)),
+        'width': st.one_of(st.integers(1, 79), st.sampled_from([1, 10, 79])),
+        'indent': st.sampled_from([1, 2, 4, 8]), 'sort': st.sampled_from([False, False, True]),
+    }))
 
 
 class _Unordered(Exception):
     pass
+
+
+def _sorted_keys(d, sort):
+    keys = list(d.keys())
+    if sort == 'sorted' and len(keys) > 1:
+        if not eqv.mutually_comparable(keys):
+            raise _Unordered()
+        keys = sorted(keys)
+    return keys
+
+
+def _cut_dict(m, N, counts, level, trunc_levels, sort):
+    keys = _sorted_keys(m, sort)
+    if len(keys) > N:
+        counts.append(len(keys) - N)
+        if trunc_levels is not None:
+            trunc_levels.append(level)
+    return keys[:N]
 
 
 def truncate(v, N, counts, level=0, trunc_levels=None, sort=False):
@@ -130,6 +170,38 @@ def truncate(v, N, counts, level=0, trunc_levels=None, sort=False):
     pairwise comparable); sets, lists, tuples are unaffected by that option (iteration order)."""
     from .. import vtypes
     t = type(v)
+    import collections as _c
+    import types as _t
+    rec = lambda x, lv=level + 1: truncate(x, N, counts, lv, trunc_levels, sort)
+
+    def cut(seq):
+        seq = list(seq)
+        if len(seq) > N:
+            counts.append(len(seq) - N)
+            if trunc_levels is not None:
+                trunc_levels.append(level)
+        return seq[:N]
+    # standard-library containers print their content as a list / dict argument of a call: that argument is truncated
+    if isinstance(v, _c.deque):
+        return _c.deque([rec(x) for x in cut(v)], maxlen=v.maxlen)
+    if isinstance(v, _c.OrderedDict):
+        return _c.OrderedDict((rec(k), rec(x)) for k, x in cut(v.items()))
+    if isinstance(v, _c.defaultdict):
+        d = _c.defaultdict(v.default_factory)
+        for k in cut(_sorted_keys(dict(v), sort)):
+            d[rec(k)] = rec(v[k])
+        return d
+    if isinstance(v, _c.Counter):
+        shown = dict(v.most_common())
+        return _c.Counter({rec(k): shown[k] for k in cut(_sorted_keys(shown, sort))})
+    if isinstance(v, _c.ChainMap):
+        return _c.ChainMap(*[{rec(k): rec(m[k]) for k in _cut_dict(m, N, counts, level + 1, trunc_levels, sort)} for m in v.maps])
+    if isinstance(v, _t.MappingProxyType):
+        return _t.MappingProxyType({rec(k): rec(v[k]) for k in cut(_sorted_keys(dict(v), sort))})
+    if isinstance(v, _t.SimpleNamespace):
+        return _t.SimpleNamespace(**{k: rec(x) for k, x in v.__dict__.items()})
+    if isinstance(v, tuple) and hasattr(t, '_fields'):
+        return t(*[rec(x) for x in v])
     if isinstance(v, vtypes.Box):
         # a call-style object is not a container: its arguments are all shown, each truncated on its own
         return t(*[truncate(a, N, counts, level + 1, trunc_levels, sort) for a in v.args],
@@ -213,10 +285,19 @@ def oracle(case):
     from .. import vtypes
     from .c17 import deep_same
     try:
-        back = values.evaluate(p.text, vtypes.env())
+        env = dict(vtypes.env())
+        if case.get('std'):
+            from .. import stdvals
+            env.update(stdvals.env())
+        back = values.evaluate(p.text, env)
     except Exception as e:
         return core.viol('not-evaluable', '%r\n%s' % (e, p.text[:500]))
-    if not deep_same(expected, back, not sort) and not any(deep_same(alt, back, False) for alt in alternatives):
+    if case.get('std'):
+        from .. import stdvals
+        same = stdvals.deep_same(expected, back, 'sort' if sort else 'keep') or any(stdvals.deep_same(alt, back, 'sort') for alt in alternatives)
+    else:
+        same = deep_same(expected, back, not sort) or any(deep_same(alt, back, False) for alt in alternatives)
+    if not same:
         return core.viol('truncated-value-differs', 'N=%r expected %r\ngot %r' % (n, expected, back) if len(p.text) < 600 else 'N=%r long value differs' % (n,))
     try:
         got, nwords = notices(p.text)
@@ -234,5 +315,7 @@ def oracle(case):
         labels.append('N=None')
     if counts:
         labels.append('truncated')
+    if case.get('std'):
+        labels.append('std-container' + ('-truncated' if counts else ''))
     nontrivial = n is None or any(lv >= 1 for lv in levels)
     return core.ok(nontrivial, labels)
